@@ -234,6 +234,8 @@ func runC20(c *report.Ctx) {
 	ruleCloseDBAlwaysDone(c)
 	ruleNotificationsQueued(c)
 	ruleImportRetryOverride(c)
+	ruleWriterLock(c)
+	ruleUnregisterBeforeStop(c)
 }
 
 // ruleSuspendResume is shared with C07.
